@@ -1668,6 +1668,8 @@ class Verifier(Engine):
         name = '%sloop%d' % (self.prefix, L.ordinal)
         if ls is None:
             n = self.cur.unroll.get(L.ordinal) if self.cur is not None else None
+            if n is None and self.cur is not None and self.cur.options.get('auto_unroll'):
+                n = int(self.cur.options['auto_unroll'])
             if n is None:
                 raise E2Error('%s has no invariant in the contract file' % name)
             return self.unroll_loop(L, st, n)
